@@ -330,21 +330,65 @@ def _show(cmd):
     return f"{ex(cmd['e'])}.move(_buffer=B{cmd['b']})"
 
 
+def _parse(line):
+    return json.loads(json.loads(line))
+
+
+def _read_groups(path, start, end):
+    """the transitions inside the byte range [start, end) of an export file, grouped by (hist, cmd): the outcomes the model allows
+    for one operation in one pre-state are separate lines of the same pre-state block (chunks hold whole blocks)"""
+    groups, index = [], {}
+    with open(path, "rb") as f:
+        f.seek(start)
+        pos = start
+        while pos < end:
+            raw = f.readline()
+            if not raw:
+                break
+            off, pos = pos, pos + len(raw)
+            if not raw.startswith(b'"{'):
+                continue
+            rec = _parse(raw.decode())
+            if "init" in rec:
+                continue
+            key = (_J(rec["hist"]), _J(rec["cmd"]))
+            if key in index:
+                groups[index[key]][3].append((rec["res"], rec["post"]))
+            else:
+                index[key] = len(groups)
+                groups.append([off, rec["hist"], rec["cmd"], [(rec["res"], rec["post"])]])
+    return groups
+
+
 def _worker(task):
-    """task = (scen tag, init, [(gid, vi, hist, cmd, alts)]) -> list of (gid, vi, result)"""
-    tag, init, groups = task
+    """task = (tag, path, init, start, end, gid0, nvar, seed) -> compact results per (group, realisation)"""
+    tag, path, init, start, end, gid0, nvar, seed = task
     os.chdir(os.environ.get("VERIF_C18_TMP", "/tmp"))
-    res = []
-    for gid, vi, hist, cmd, alts in groups:
-        try:
-            r = replay_group(init, vi, hist, cmd, alts)
-        except C.MachineryError:
-            raise
-        except Exception as ex:    # the harness itself failed: machinery, never a verdict
-            import traceback
-            r = dict(status="machinery", findings=[], drift=[], err=traceback.format_exc()[-1500:])
-        res.append((gid, vi, r))
-    return tag, res
+    out, detailed = [], 0
+    per_op = collections.Counter()
+    for k, (off, hist, cmd, alts) in enumerate(_read_groups(path, start, end)):
+        gid = gid0 + k
+        per_op[cmd["op"] + ":" + "/".join(sorted({a[0] for a in alts}))] += 1
+        if nvar >= len(VARIANTS):
+            vis = list(range(len(VARIANTS)))
+        else:
+            vis = [(gid + seed + j) % len(VARIANTS) for j in range(nvar)]
+        for vi in vis:
+            try:
+                r = replay_group(init, vi, hist, cmd, alts)
+            except C.MachineryError:
+                raise
+            except Exception:    # the harness itself failed: machinery, never a verdict
+                import traceback
+                r = dict(status="machinery", findings=[], drift=[], err=traceback.format_exc()[-1500:])
+            rec = dict(tag=tag, off=off, vi=vi, status=r["status"], drift=r.get("drift", []), err=r.get("err"), depth=len(hist))
+            if r["status"] == "violation":
+                rec["findings"] = r["findings"]
+                if detailed < 40:                       # enough to attribute; the rest is counted
+                    detailed += 1
+                    rec["group"] = (hist, cmd, alts)
+            out.append(rec)
+    return tag, out, dict(per_op)
 
 
 # ----------------------------------------------------------------------------- TLC: export and model checking
@@ -355,70 +399,135 @@ PROPS = "INVARIANT MoveRefusal\nPROPERTY CopyEqual\nPROPERTY MovePreserves\nPROP
 
 
 def tlc_export(job):
-    tag, consts = job
+    """runs XoHybridGen with its output streamed to a file; returns (tag, path, init, chunks, stats)"""
+    import subprocess
+    tag, consts_, outdir = job
     wd = C.scratch("c18gen")
-    cfg = f"SPECIFICATION GSpec\nCONSTANTS {consts}\nVIEW View\n{INVS}CHECK_DEADLOCK FALSE\n"
-    open(os.path.join(wd, "gen.cfg"), "w").write(cfg)
-    res = C.run_tlc("XoHybridGen", "gen.cfg", workdir=wd, workers=1, timeout=3000, jvm=("-Xmx2g",))
-    if not res["ok"]:
-        shutil.rmtree(wd, ignore_errors=True)
-        raise C.MachineryError(f"XoHybridGen {tag} failed:\n" + res["out"][-3000:])
-    init, groups, order = None, {}, []
-    n = 0
-    for line in res["out"].splitlines():
-        if not line.startswith('"{'):
-            continue
-        rec = json.loads(json.loads(line))
-        if "init" in rec:
-            init = rec["init"]
-            continue
-        n += 1
-        key = (json.dumps(rec["hist"], sort_keys=True), json.dumps(rec["cmd"], sort_keys=True))
-        if key not in groups:
-            groups[key] = (rec["hist"], rec["cmd"], [])
-            order.append(key)
-        groups[key][2].append((rec["res"], rec["post"]))
+    for f in os.listdir(C.SPEC):
+        if f.startswith("XoHybrid") and f.endswith(".tla"):
+            shutil.copy(os.path.join(C.SPEC, f), wd)
+    open(os.path.join(wd, "gen.cfg"), "w").write(f"SPECIFICATION GSpec\nCONSTANTS {consts_}\nVIEW View\n{INVS}CHECK_DEADLOCK FALSE\n")
+    path = os.path.join(outdir, f"export_{tag}.ndjson")
+    t0 = time.time()
+    cmd = ["java", "-XX:+UseParallelGC", "-Xss16m", "-Xmx1500m", "-cp", C.TLA_CP, "tlc2.TLC", "-workers", "1", "-metadir", os.path.join(wd, "meta"),
+           "-noGenerateSpecTE", "-config", "gen.cfg", "XoHybridGen"]
+    with open(path, "wb") as fo:
+        try:
+            p = subprocess.run(cmd, cwd=wd, stdout=fo, stderr=subprocess.STDOUT, timeout=3000)
+        except subprocess.TimeoutExpired as ex:
+            raise C.MachineryError(f"TLC timeout on XoHybridGen {tag}") from ex
     shutil.rmtree(wd, ignore_errors=True)
-    res["out"] = ""
-    return tag, init, [groups[k] for k in order], n, res
+    # statistics and errors are in the non-JSON lines; chunk boundaries only between different (cmd, hist) prefixes
+    init, chunks, n, other = None, [], 0, []
+    start, cur, last_key, pos = None, 0, None, 0
+    with open(path, "rb") as f:
+        for raw in f:
+            off, pos = pos, pos + len(raw)
+            if not raw.startswith(b'"{'):
+                other.append(raw.decode(errors="replace"))
+                continue
+            if raw.startswith(b'"{\\"init\\"'):
+                init = _parse(raw.decode())["init"]
+                continue
+            n += 1
+            # line = {"hist":[..],"cmd":{..},"res":"..","post":{..}}; "post" occurs at top level only, the operation and its
+            # outcome are the LAST "cmd" / "res" before it (the entries of hist carry cmd / res too)
+            ip = raw.find(b'\\"post\\":')
+            hkey, key = raw[:raw.rfind(b',\\"cmd\\":', 0, ip)], raw[:raw.rfind(b',\\"res\\":', 0, ip)]   # pre-state block, (hist, cmd)
+            if start is None:
+                start, cur, seen = off, 0, set()
+            elif hkey != last_key and cur >= 300:
+                chunks.append((start, off, cur))
+                start, cur, seen = off, 0, set()
+            if hkey != last_key:
+                seen = set()
+            if key not in seen:
+                seen.add(key)
+                cur += 1
+            last_key = hkey
+        if start is not None:
+            chunks.append((start, pos, cur))
+    txt = "".join(other)
+    m = None
+    for m in C._STATS_RE.finditer(txt):
+        pass
+    bad = [ln for ln in txt.splitlines() if ln.startswith("Error:") or "is violated" in ln]
+    if p.returncode != 0 or bad or init is None or not m:
+        raise C.MachineryError(f"XoHybridGen {tag} failed (rc={p.returncode}):\n" + txt[-3000:])
+    stats = dict(generated=int(m.group(1)), distinct=int(m.group(2)), wall=time.time() - t0, transitions=n,
+                 groups=sum(c[2] for c in chunks))
+    return tag, path, init, chunks, stats
 
 
 def tlc_check(job):
-    tag, consts, props, workers, expect_violation = job
+    tag, consts_, props, workers, expect_violation = job
     wd = C.scratch("c18mc")
-    cfg = f"SPECIFICATION Spec\nCONSTANTS {consts}\n{INVS}{PROPS if props else ''}CHECK_DEADLOCK FALSE\n"
+    cfg = f"SPECIFICATION Spec\nCONSTANTS {consts_}\n{INVS}{PROPS if props else ''}CHECK_DEADLOCK FALSE\n"
     open(os.path.join(wd, "mc.cfg"), "w").write(cfg)
-    res = C.run_tlc("XoHybrid", "mc.cfg", workdir=wd, workers=workers, timeout=3000, jvm=("-Xmx3g",))
+    res = C.run_tlc("XoHybrid", "mc.cfg", workdir=wd, workers=workers, timeout=3000, jvm=("-Xmx2g",))
     shutil.rmtree(wd, ignore_errors=True)
     if expect_violation:
         if not any("Mirror" in v for v in res["violated"]):
             raise C.MachineryError(f"self test {tag}: Bug = TRUE should violate Mirror (vacuous invariant?)\n" + res["out"][-2000:])
     elif not res["ok"]:
         raise C.MachineryError(f"model-level check {tag} failed (the specification itself is inconsistent):\n" + res["out"][-3000:])
+    res["out"] = ""
     return tag, res
 
 
-# per tier: exhaustive model checks (no export) and exports (replayed).  (scen, depth, MaxH, Vals, WSlots)
+# per tier.  check / props: (scenarios, depth, MaxH, Vals, WSlots, TLC workers) - exhaustive model checking, no export;
+# export: (scenario, depth, MaxH, Vals, WSlots, realisations per transition) - every transition replayed on the real library
 TIERS = {
     "quick": dict(
         check=[((1, 2, 3, 4, 5, 6, 7), 4, 3, "{1}", '{"a","x","arr"}', 6)],
         props=[((1, 2, 3, 4, 6), 2, 3, "{1,2}", ALLW, 3)],
-        export=[(1, 3, 3, "{1}", '{"a","k"}'), (7, 3, 3, "{1}", ALLW), (2, 4, 3, "{1}", '{"a"}'), (3, 3, 3, "{1}", '{"a","x","y"}'),
-                (4, 4, 3, "{1}", '{"a"}'), (5, 2, 3, "{1}", '{"a"}'), (6, 4, 3, "{1}", '{"a"}')],
-        variants_per_group=1),
+        export=[(1, 3, 3, "{1}", '{"a","k"}', 1), (7, 3, 3, "{1}", ALLW, 1), (2, 4, 3, "{1}", '{"a"}', 1), (3, 3, 3, "{1}", '{"a","x","y"}', 1),
+                (4, 4, 3, "{1}", '{"a"}', 1), (5, 2, 3, "{1}", '{"a"}', 1), (6, 4, 3, "{1}", '{"a"}', 1)],
+        tlc_parallel=10, pool=10),
     "thorough": dict(
-        check=[((2, 3, 4, 6, 7), 6, 4, "{1}", '{"a","x"}', 6), ((1, 5), 5, 3, "{1}", '{"a"}', 6)],
+        check=[((2, 4, 6), 6, 3, "{1}", '{"a"}', 4), ((3, 7), 6, 3, "{1}", '{"a","x"}', 5), ((1,), 6, 3, "{1}", '{"a"}', 6), ((5,), 5, 3, "{1}", '{"a"}', 4),
+               ((1, 2, 3, 4, 5, 6, 7), 4, 4, "{1,2}", '{"a","x","arr","s"}', 6)],
         props=[((1, 2, 3, 4, 5, 6, 7), 3, 3, "{1,2}", ALLW, 4)],
-        export=[(1, 4, 3, "{1}", '{"a","k"}'), (2, 4, 4, "{1}", '{"a","h"}'), (3, 4, 3, "{1}", '{"a","x","y"}'), (4, 4, 3, "{1}", '{"a","k"}'),
-                (5, 3, 3, "{1}", '{"a"}'), (6, 4, 4, "{1}", '{"a"}'), (7, 4, 3, "{1,2}", ALLW),
-                (1, 3, 3, "{1,2}", ALLW), (3, 3, 3, "{1,2}", ALLW)],
-        variants_per_group=2),
+        export=[(1, 4, 3, "{1}", '{"a","k"}', 1), (2, 6, 3, "{1}", '{"a"}', 1), (3, 5, 3, "{1}", '{"a","x"}', 1), (4, 5, 3, "{1}", '{"a"}', 1),
+                (5, 3, 3, "{1}", '{"a"}', 2), (6, 6, 3, "{1}", '{"a"}', 1), (7, 4, 3, "{1}", '{"a","s","arr","k"}', 1),
+                (1, 3, 3, "{1,2}", ALLW, 4), (3, 3, 3, "{1,2}", ALLW, 4), (7, 3, 4, "{1,2}", ALLW, 4), (2, 3, 4, "{1,2}", ALLW, 4)],
+        tlc_parallel=6, pool=10),
 }
 
 
 def consts(scen, d, mh, vals, ws, bug="FALSE"):
     scen = (scen,) if isinstance(scen, int) else scen
     return CONST.format(scen="{" + ",".join(map(str, scen)) + "}", d=d, mh=mh, vals=vals, ws=ws, bug=bug)
+
+
+class Lookup:
+    """finds the exported group of a transition (history, operation) in an export file; built only when a violation needs attribution"""
+
+    def __init__(self, path):
+        self.path, self.idx = path, None
+
+    def get(self, cmds, cmd):
+        if self.idx is None:
+            self.idx = {}
+            pos = 0
+            with open(self.path, "rb") as f:
+                for raw in f:
+                    off, pos = pos, pos + len(raw)
+                    if raw.startswith(b'"{') and not raw.startswith(b'"{\\"init\\"'):
+                        rec = _parse(raw.decode())
+                        self.idx.setdefault(_J([h["cmd"] for h in rec["hist"]] + [rec["cmd"]]), off)
+        off = self.idx.get(_J(list(cmds) + [cmd]))
+        if off is None:
+            return None
+        want = _J(list(cmds) + [cmd])
+        for g in _read_groups(self.path, off, off + (1 << 22)):
+            if _J([h["cmd"] for h in g[1]] + [g[2]]) == want:
+                return g[1:]
+        return None
+
+
+def _J(x):
+    return json.dumps(x, sort_keys=True)
 
 
 # ----------------------------------------------------------------------------- the check
@@ -443,42 +552,31 @@ def check(pid, argv=None):
             run.report(key, f"[{VARIANTS[rp['variant']]['name']}] {desc}", rp)
         run.finish()
     t1 = time.time()
-    jobs_x = [(f"s{s}d{d}", consts(s, d, mh, vals, ws)) for s, d, mh, vals, ws in tier["export"]]
-    jobs_c = [(f"inv-s{''.join(map(str, s))}d{d}", consts(s, d, mh, vals, ws), False, w, False) for s, d, mh, vals, ws, w in tier["check"]]
+    jobs_x = [(f"s{s}d{d}" + ("full" if ws == ALLW else ""), consts(s, d, mh, vals, ws), run.tmp) for s, d, mh, vals, ws, nv in tier["export"]]
+    nvar = {j[0]: e[5] for j, e in zip(jobs_x, tier["export"])}
+    jobs_c = [(f"inv-s{''.join(map(str, s))}d{d}h{mh}", consts(s, d, mh, vals, ws), False, w, False) for s, d, mh, vals, ws, w in tier["check"]]
     jobs_c += [(f"prop-s{''.join(map(str, s))}d{d}", consts(s, d, mh, vals, ws), True, w, False) for s, d, mh, vals, ws, w in tier["props"]]
     jobs_c += [("selftest-bug", consts(1, 2, 3, "{1}", '{"a"}', bug="TRUE"), False, 1, True)]
-    mc, xstats, meta, results = {}, {}, {}, []
+    mc, xstats, files, results = {}, {}, {}, []
     per_op = collections.Counter()
-    rng = random.Random(run.seed + 18)
     gid = 0
     import multiprocessing
     from concurrent.futures import as_completed
-    pool = ProcessPoolExecutor(max_workers=min(C.NCPU, 10), mp_context=multiprocessing.get_context("spawn"))
+    pool = ProcessPoolExecutor(max_workers=min(C.NCPU, tier["pool"]), mp_context=multiprocessing.get_context("spawn"))
     try:
-        with ThreadPoolExecutor(max_workers=min(C.NCPU, 10)) as ex:
+        with ThreadPoolExecutor(max_workers=min(C.NCPU, tier["tlc_parallel"])) as ex:
             fx = [ex.submit(tlc_export, j) for j in jobs_x]          # exports first: their replay overlaps the model checking
             fc = [ex.submit(tlc_check, j) for j in jobs_c]
             rfut = []
             for f in as_completed(fx):
-                tag, init, groups, n, res = f.result()
-                run.add_tlc(res)
-                xstats[tag] = dict(transitions=n, groups=len(groups), states=res["distinct"], wall=round(res["wall"], 1))
-                cur = []
-                for hist, cmd, alts in groups:
-                    if tier["variants_per_group"] == 1:
-                        vis = [gid % len(VARIANTS)]
-                    else:
-                        vis = rng.sample(range(len(VARIANTS)), tier["variants_per_group"])
-                    for vi in vis:
-                        cur.append((gid, vi, hist, cmd, alts))
-                    meta[gid] = (tag, init, hist, cmd, alts)
-                    per_op[cmd["op"] + ":" + "/".join(sorted({a[0] for a in alts}))] += 1
-                    gid += 1
-                    if len(cur) >= 300:
-                        rfut.append(pool.submit(_worker, (tag, init, cur)))
-                        cur = []
-                if cur:
-                    rfut.append(pool.submit(_worker, (tag, init, cur)))
+                tag, path, init, chunks, st = f.result()
+                run.cov["states"] += st["distinct"]
+                run.cov["transitions"] += st["generated"]
+                xstats[tag] = dict(transitions=st["transitions"], groups=st["groups"], states=st["distinct"], wall=round(st["wall"], 1), realisations=nvar[tag])
+                files[tag] = (path, init)
+                for start, end, ng in chunks:
+                    rfut.append(pool.submit(_worker, (tag, path, init, start, end, gid, nvar[tag], run.seed)))
+                    gid += ng
             run.notes["t_export"] = round(time.time() - t1, 1)
             for f in fc:
                 tag, res = f.result()
@@ -488,8 +586,9 @@ def check(pid, argv=None):
                     run.add_tlc(res)
             run.notes["t_tlc"] = round(time.time() - t1, 1)
             for f in rfut:
-                tag, res = f.result()
+                tag, res, po = f.result()
                 results += res
+                per_op.update(po)
     finally:
         pool.shutdown(wait=True, cancel_futures=True)
     run.notes["model_checking"] = mc
@@ -498,62 +597,64 @@ def check(pid, argv=None):
     run.notes["t_tlc_and_replay"] = round(time.time() - t1, 1)
 
     # ---- verdicts.  A violation is attributed to the FIRST step of its history that violates with the same realisation
-    # (re-checked here, because in the quick tier each transition is replayed with one realisation only); later steps of
-    # such a history are consequences, not new findings.
+    # (re-checked here, because a transition is not replayed with every realisation); later steps of such a history are
+    # consequences, not new findings.
     status = collections.Counter()
     drift = collections.Counter()
-    J = lambda x: json.dumps(x, sort_keys=True)
-    index = {(m[0], J([h["cmd"] for h in m[2]]), J(m[3])): g for g, m in meta.items()}
-    viol = []
-    for g, vi, r in results:
+    viol, undetailed = [], collections.Counter()
+    for r in results:
         status[r["status"]] += 1
         if r["status"] == "machinery":
             raise C.MachineryError("replay harness failed:\n" + r["err"])
-        for d in r.get("drift", []):
+        for d in r["drift"]:
             drift[d] += 1
         if r["status"] == "violation":
-            viol.append((len(meta[g][2]), g, vi, r))
-    viol.sort(key=lambda v: v[:3])
-    roots, cache, derived = {}, {}, 0
+            if "group" in r:
+                viol.append(r)
+            else:
+                for k, _ in r["findings"]:
+                    undetailed[k] += 1
+    viol.sort(key=lambda r: (r["depth"], r["tag"], r["off"], r["vi"]))
+    roots, cache, derived, lookups = {}, {}, 0, {}
 
-    def recheck(g, vi):
-        if (g, vi) not in cache:
-            tag, init, hist, cmd, alts = meta[g]
-            cache[(g, vi)] = replay_group(init, vi, hist, cmd, alts)
-        return cache[(g, vi)]
-
-    def emit(g, vi, r):
-        tag, init, hist, cmd, alts = meta[g]
+    def emit(tag, vi, hist, cmd, alts, r):
         for key, desc in r["findings"]:
             d = f"[{tag} {VARIANTS[vi]['name']}] history " + "; ".join(_show(h["cmd"]) for h in hist) + " | " + desc
-            run.report(key, d, dict(init=init, variant=vi, hist=hist, cmd=cmd, alts=alts))
+            run.report(key, d, dict(init=files[tag][1], variant=vi, hist=hist, cmd=cmd, alts=alts))
 
-    for _, g, vi, r in viol:
-        cache[(g, vi)] = r
-    for _, g, vi, r in viol:
-        tag, init, hist, cmd, alts = meta[g]
+    for r in viol:
+        tag, vi = r["tag"], r["vi"]
+        hist, cmd, alts = r["group"]
         cmds = [h["cmd"] for h in hist]
         rs = roots.setdefault((tag, vi), set())
-        if any(J(cmds[:k]) in rs for k in range(1, len(cmds) + 1)):
+        if any(_J(cmds[:k]) in rs for k in range(1, len(cmds) + 1)):
             derived += 1
             continue
+        lk = lookups.setdefault(tag, Lookup(files[tag][0]))
         for k in range(1, len(cmds) + 1):
-            gk = index.get((tag, J(cmds[:k - 1]), J(cmds[k - 1])))
-            rk = recheck(gk, vi) if gk is not None else None
+            ck = (tag, vi, _J(cmds[:k]))
+            if ck not in cache:
+                g = lk.get(cmds[:k - 1], cmds[k - 1])
+                cache[ck] = (g, replay_group(files[tag][1], vi, *g)) if g else (None, None)
+            g, rk = cache[ck]
             if rk and rk["status"] == "violation":
-                rs.add(J(cmds[:k]))
-                emit(gk, vi, rk)
+                rs.add(_J(cmds[:k]))
+                emit(tag, vi, g[0], g[1], g[2], rk)
                 derived += 1
                 break
         else:
-            rs.add(J(cmds + [cmd]))
-            emit(g, vi, r)
+            rs.add(_J(cmds + [cmd]))
+            emit(tag, vi, hist, cmd, alts, r)
+    reported = {v[0] for v in run.violations} | set(run.known_hits)
+    for k, n in undetailed.items():          # more violating transitions than were returned in detail: never drop a key silently
+        if not any(k == v[0] for v in run.violations):
+            run.report(k, f"{n} further violating transition(s) with this key (not attributed to a first failing step)", None)
     run.notes["replay_status"] = dict(status)
     run.notes["violations_that_follow_an_earlier_violating_step"] = derived
     run.notes["model-drift"] = dict(drift)
     run.cov["traces_validated_against_impl"] = len(results)
-    for g in list(meta)[:3] + list(meta)[-3:]:
-        tag, init, hist, cmd, alts = meta[g]
-        run.sample(dict(scen=tag, history=[_show(h["cmd"]) for h in hist], step=_show(cmd), outcomes=[a[0] for a in alts]))
+    for tag, (path, init) in list(files.items())[:4]:
+        for off, hist, cmd, alts in _read_groups(path, 0, 1 << 16)[-2:]:
+            run.sample(dict(scen=tag, history=[_show(h["cmd"]) for h in hist], step=_show(cmd), outcomes=[a[0] for a in alts]))
     run.cov["exhaustive"] = False
     run.finish()
